@@ -912,3 +912,39 @@ func VerifC07_RejectionThroughEitherStoreOfAFamily() {
 		verifrt.Assert(ferr == nil && found && e.Boss != nil && *e.Boss == target, "C07 an accepted update is stored")
 	})
 }
+
+// VerifC08_CreateEventCarriesCommittedState: the struct handed to Create is the
+// caller's; it is changed (re-used for the next create) before the transaction
+// commits. Each create event carries what was stored for that entity.
+func VerifC08_CreateEventCarriesCommittedState() {
+	env := verifNewEnv(vStoreCfg{nickNullable: true})
+	defer env.close()
+	mgr := verifNewMgrStore(env.emp, false)
+	log := &vEventLog{}
+	verifRegisterListeners(env.emp, mgr, log)
+	n1, n2 := verifrt.String("name", 1), verifrt.String("name", 1)
+	verifrt.Assume(n1 != n2)
+	child := verifrt.Bool("child")
+	err := env.update(func(ctx MutateContext) error {
+		if child {
+			e := &vMgr{vEmp: vEmp{Id: "a", Name: n1}, Lead: true}
+			if err := mgr.Create(ctx, e); err != nil {
+				return err
+			}
+			e.Id, e.Name = "ab", n2 // the same struct, re-used
+			return mgr.Create(ctx, e)
+		}
+		e := &vEmp{Id: "a", Name: n1}
+		if err := env.emp.Create(ctx, e); err != nil {
+			return err
+		}
+		e.Id, e.Name = "ab", n2
+		return env.emp.Create(ctx, e)
+	})
+	verifrt.Settle()
+	verifrt.Assert(err == nil, "C08 two creates from one re-used struct succeed")
+	var want []vEvent
+	want = verifExpectEvents(want, EntityCreated, "a", n1, child)
+	want = verifExpectEvents(want, EntityCreated, "ab", n2, child)
+	verifrt.Assert(verifEventsEqual(log.events, want), "C08 each create event carries the state committed for its entity, not what the caller's struct holds later")
+}
